@@ -26,9 +26,14 @@ def apply_bounds(genomes: np.ndarray, bounds: np.ndarray, method: str) -> np.nda
         is_odd_flip = np.mod(flips, 2) == 1
         reflected_genomes = np.where(is_odd_flip, range_size - mod_genomes, mod_genomes)
         # Return genomes to their original positions with bounds applied
-        return lower_bounds + reflected_genomes
+        repaired_genomes = lower_bounds + reflected_genomes
     elif method == "toroidal":
         range_size = upper_bounds - lower_bounds
-        return lower_bounds + (genomes - lower_bounds) % range_size
+        repaired_genomes = lower_bounds + (genomes - lower_bounds) % range_size
     else:
         raise ValueError(f"Unknown method: {method}")
+    # Coordinates that are already inside the box stay where they are (a point on the upper bound
+    # must not be wrapped to the lower one) and floating-point rounding of the repaired coordinates
+    # must not push them outside the box again.
+    is_inside = (genomes >= lower_bounds) & (genomes <= upper_bounds)
+    return np.where(is_inside, genomes, np.clip(repaired_genomes, lower_bounds, upper_bounds))
